@@ -228,7 +228,79 @@ func FactsAt(info *types.Info, body *ast.BlockStmt, pos token.Pos) []Fact {
 		}
 	}
 	inBlock(body.List)
-	return facts
+	return expandBoolLocals(info, body, facts)
+}
+
+// expandBoolLocals appends, after each fact whose condition is a boolean local defined exactly
+// once in body (`usePIT := opts.PIT != nil && !opts.PIT.IsZero()`), the facts its definition
+// yields, so that naming a condition does not hide it from the rules (sound under the same
+// assumption as FactsAt: the operands do not change between the definition and the test).
+func expandBoolLocals(info *types.Info, body *ast.BlockStmt, facts []Fact) []Fact {
+	var out []Fact
+	var add func(f Fact, depth int)
+	add = func(f Fact, depth int) {
+		out = append(out, f)
+		if depth >= 3 {
+			return
+		}
+		id, ok := ast.Unparen(f.Cond).(*ast.Ident)
+		if !ok {
+			return
+		}
+		obj := info.ObjectOf(id)
+		if obj == nil {
+			return
+		}
+		if v, isVar := obj.(*types.Var); !isVar || v.IsField() {
+			return
+		}
+		if b, isB := obj.Type().Underlying().(*types.Basic); !isB || b.Info()&types.IsBoolean == 0 {
+			return
+		}
+		var defs []ast.Expr
+		multi := false
+		ast.Inspect(body, func(n ast.Node) bool {
+			switch x := n.(type) {
+			case *ast.AssignStmt:
+				for i, l := range x.Lhs {
+					if lid, ok := l.(*ast.Ident); ok && info.ObjectOf(lid) == obj {
+						if len(x.Lhs) == len(x.Rhs) {
+							defs = append(defs, x.Rhs[i])
+						} else {
+							multi = true
+						}
+					}
+				}
+			case *ast.ValueSpec:
+				for i, nm := range x.Names {
+					if info.ObjectOf(nm) == obj {
+						if i < len(x.Values) {
+							defs = append(defs, x.Values[i])
+						} else {
+							multi = true // declared without a value, assigned later
+						}
+					}
+				}
+			case *ast.UnaryExpr:
+				if x.Op == token.AND {
+					if aid, ok := ast.Unparen(x.X).(*ast.Ident); ok && info.ObjectOf(aid) == obj {
+						multi = true
+					}
+				}
+			}
+			return true
+		})
+		if multi || len(defs) != 1 {
+			return
+		}
+		for _, nf := range splitFact(defs[0], f.Positive) {
+			add(nf, depth+1)
+		}
+	}
+	for _, f := range facts {
+		add(f, 0)
+	}
+	return out
 }
 
 func splitFact(c ast.Expr, positive bool) []Fact {
